@@ -3,6 +3,7 @@ package c05
 import (
 	"bytes"
 	"compress/gzip"
+	"encoding/binary"
 	"encoding/json"
 	"fmt"
 	"sort"
@@ -349,6 +350,101 @@ func hostileGzip(s *core.Source, tile []byte) ([]byte, string) {
 	}
 }
 
+// ---- bulk: inputs with enough REAL data to get past the first length check
+
+var doubleBomb []byte
+
+func bulk(s *core.Source) (fam int, data []byte, what string) {
+	n := []int{100, 1000, 4000, 10001, 10300}[s.Pick([]int{2, 2, 2, 2, 1}, "bulkn")]
+	switch s.Intn(7, "bulkkind") {
+	case 0: // WKB line string / ring with n real points and an inflated count
+		be := s.Bool("be")
+		var bo binary.ByteOrder = binary.LittleEndian
+		ob := byte(1)
+		if be {
+			bo, ob = binary.BigEndian, 0
+		}
+		count := []uint32{uint32(n), 1 << 24, 1 << 28, 1<<32 - 1, uint32(n) + 1}[s.Intn(5, "claimed")]
+		w4 := func(v uint32) []byte { b := make([]byte, 4); bo.PutUint32(b, v); return b }
+		var b []byte
+		kind := s.Intn(3, "bulkwkb")
+		switch kind {
+		case 0:
+			b = append([]byte{ob}, w4(2)...)
+		case 1:
+			b = append(append([]byte{ob}, w4(3)...), w4(1)...)
+		default:
+			b = append(append(append([]byte{ob}, w4(7)...), w4(1)...), append([]byte{ob}, w4(2)...)...)
+		}
+		b = append(b, w4(count)...)
+		b = append(b, make([]byte, 16*n)...)
+		return famWKB, b, fmt.Sprintf("wkb kind %d with %d real points claiming %d", kind, n, count)
+	case 1: // WKB multi geometry with n tiny members
+		typ := []byte{4, 5, 6, 7}[s.Intn(4, "mtype")]
+		member := map[byte][]byte{
+			4: append([]byte{1, 1, 0, 0, 0}, make([]byte, 16)...),
+			5: {1, 2, 0, 0, 0, 0, 0, 0, 0},
+			6: {1, 3, 0, 0, 0, 0, 0, 0, 0},
+			7: {1, 7, 0, 0, 0, 0, 0, 0, 0},
+		}[typ]
+		b := []byte{1, typ, 0, 0, 0}
+		c := make([]byte, 4)
+		binary.LittleEndian.PutUint32(c, uint32(n))
+		b = append(b, c...)
+		b = append(b, bytes.Repeat(member, n)...)
+		return famWKB, b, fmt.Sprintf("wkb multi type %d with %d tiny members", typ, n)
+	case 2: // WKT with n tiny members
+		head, member := "", ""
+		switch s.Intn(5, "wktbulk") {
+		case 0:
+			head, member = "POLYGON(", "(1 1,2 2,1 1)"
+		case 1:
+			head, member = "MULTIPOINT(", "(1 2)"
+		case 2:
+			head, member = "MULTILINESTRING(", "(1 2,3 4)"
+		case 3:
+			head, member = "MULTIPOLYGON(", "((1 1,2 2,1 1))"
+		default:
+			head, member = "GEOMETRYCOLLECTION(", "POINT(1 2)"
+		}
+		if n > 4000 {
+			n = 4000
+		}
+		return famWKT, []byte(head + strings.TrimSuffix(strings.Repeat(member+",", n), ",") + ")"), fmt.Sprintf("%s with %d members", head, n)
+	case 3: // GeoJSON feature collection with n tiny features
+		if n > 4000 {
+			n = 4000
+		}
+		f := `{"type":"Feature","geometry":{"type":"Point","coordinates":[1,2]},"properties":null}`
+		return famJSON, []byte(`{"type":"FeatureCollection","features":[` + strings.TrimSuffix(strings.Repeat(f+",", n), ",") + `]}`), fmt.Sprintf("feature collection with %d features", n)
+	case 4: // GeoJSON multi geometry with n members
+		if n > 4000 {
+			n = 4000
+		}
+		return famJSON, []byte(`{"type":"MultiLineString","coordinates":[` + strings.TrimSuffix(strings.Repeat(`[[1,2],[3,4]],`, n), ",") + `]}`), fmt.Sprintf("multi line string with %d lines", n)
+	case 5: // gzip of gzip of 32 MB of zeros (built once per process; deterministic)
+		if doubleBomb == nil {
+			doubleBomb = gzipOf(gzipOf(make([]byte, 32<<20)))
+		}
+		return famMVT, doubleBomb, "gzip of gzip of 32 MB of zeros"
+	default: // a tile with one feature repeated n times
+		if n > 4000 {
+			n = 4000
+		}
+		name, v, gt := "l", uint32(2), vectortile.Tile_POINT
+		f := &vectortile.Tile_Feature{Type: &gt, Geometry: []uint32{9, 2, 2}}
+		l := &vectortile.Tile_Layer{Name: &name, Version: &v}
+		for i := 0; i < n; i++ {
+			l.Features = append(l.Features, f)
+		}
+		data, _ := proto.Marshal(&vectortile.Tile{Layers: []*vectortile.Tile_Layer{l}})
+		if s.Bool("gz") {
+			return famMVT, gzipOf(data), fmt.Sprintf("gzipped tile with %d identical features", n)
+		}
+		return famMVT, data, fmt.Sprintf("tile with %d identical features", n)
+	}
+}
+
 // RunHostile: well-framed hostile inputs.
 func RunHostile(t *core.T) {
 	warmUp()
@@ -362,7 +458,10 @@ func RunHostile(t *core.T) {
 		var data []byte
 		var what string
 		fam := famMVT
-		switch s.Pick([]int{4, 3, 3, 2, 1}, "hkind") {
+		switch s.Pick([]int{4, 3, 3, 2, 1, 1}, "hkind") {
+		case 5:
+			fam, data, what = bulk(s)
+			t.Fault("bulk_input")
 		case 0:
 			data, what = hostileTile(s)
 			if data != nil && s.Chance(1, 4, "gz") {
